@@ -1,9 +1,23 @@
-
+(* C17 (model part, piece A): string-content irrelevance.
+   gen/Pt.v `maps_*` rewrites the text of the parts of Expression::StringLiteral only (not pragma
+   values, import paths or identifiers).  For all 30 detectors: a rewriting that preserves the byte
+   length of every part cannot be observed (exact equality of the result, panics included); for 29
+   of them no condition on the rewriting is needed at all - only short_revert_string measures the
+   length (`strlen` = String.length) of the first part of the last argument of require(..);
+   string_error returns that part's location; immutable_variables looks at the constructor
+   (Expression_StringLiteral or not) only.
+   Part 1: maps commutes with the complete pre-order and hence with the walker (architecture of MapLoc.v).
+   Part 2: unfolding equations for maps_* (cbn exposes the raw mutual fix).
+   Part 3: the detectors. *)
 From Coq Require Import List String Ascii NArith ZArith Bool.
 Import ListNotations.
-From Solstat Require Import Lift Pt Walk WalkProof.
+From Solstat Require Import Lift Pt Walk Res Nodes Utils Detectors Opt_pack WalkProof NoPanic.
+Local Open Scope string_scope.
+Local Open Scope list_scope.
 
-Section MapStr.
+(* ------------------------------------------------------------------------------------------
+   Part 1 *)
+Section MapStrPre.
   Variable g : string -> string.
 
   Definition maps_node (n : node) : node :=
@@ -170,4 +184,1004 @@ Section MapStr.
   Qed.
 
 
-End MapStr.
+End MapStrPre.
+
+(* ------------------------------------------------------------------------------------------
+   Part 2: unfolding equations (one per constructor of the mutual block; all by reflexivity) *)
+Section MapsEqs.
+  Variable g : string -> string.
+  Lemma maps_eq_Ty_Address : maps_Ty g Ty_Address = Ty_Address .
+  Proof. reflexivity. Qed.
+  Lemma maps_eq_Ty_AddressPayable : maps_Ty g Ty_AddressPayable = Ty_AddressPayable .
+  Proof. reflexivity. Qed.
+  Lemma maps_eq_Ty_Payable : maps_Ty g Ty_Payable = Ty_Payable .
+  Proof. reflexivity. Qed.
+  Lemma maps_eq_Ty_Bool : maps_Ty g Ty_Bool = Ty_Bool .
+  Proof. reflexivity. Qed.
+  Lemma maps_eq_Ty_String : maps_Ty g Ty_String = Ty_String .
+  Proof. reflexivity. Qed.
+  Lemma maps_eq_Ty_Int : forall a0, maps_Ty g (Ty_Int a0) = Ty_Int a0.
+  Proof. reflexivity. Qed.
+  Lemma maps_eq_Ty_Uint : forall a0, maps_Ty g (Ty_Uint a0) = Ty_Uint a0.
+  Proof. reflexivity. Qed.
+  Lemma maps_eq_Ty_Bytes : forall a0, maps_Ty g (Ty_Bytes a0) = Ty_Bytes a0.
+  Proof. reflexivity. Qed.
+  Lemma maps_eq_Ty_Rational : maps_Ty g Ty_Rational = Ty_Rational .
+  Proof. reflexivity. Qed.
+  Lemma maps_eq_Ty_DynamicBytes : maps_Ty g Ty_DynamicBytes = Ty_DynamicBytes .
+  Proof. reflexivity. Qed.
+  Lemma maps_eq_Ty_Mapping : forall a0 a1 a2, maps_Ty g (Ty_Mapping a0 a1 a2) = Ty_Mapping a0 ((maps_Expression g) a1) ((maps_Expression g) a2).
+  Proof. reflexivity. Qed.
+  Lemma maps_eq_Ty_Function : forall params_ attributes_ returns_, maps_Ty g (Ty_Function params_ attributes_ returns_) = Ty_Function (map (fun y311 => (match y311 with (y312, y313) => (y312, (match y313 with Some y314 => Some ((maps_Param g) y314) | None => None end)) end)) params_) (map (fun y315 => ((maps_FunctionAttribute g) y315)) attributes_) (match returns_ with Some y316 => Some (match y316 with (y317, y318) => ((map (fun y319 => (match y319 with (y320, y321) => (y320, (match y321 with Some y322 => Some ((maps_Param g) y322) | None => None end)) end)) y317), (map (fun y323 => ((maps_FunctionAttribute g) y323)) y318)) end) | None => None end).
+  Proof. reflexivity. Qed.
+  Lemma maps_eq_Mk_VariableDeclaration : forall loc_ ty_ storage_ name_, maps_VariableDeclaration g (Mk_VariableDeclaration loc_ ty_ storage_ name_) = Mk_VariableDeclaration loc_ ((maps_Expression g) ty_) storage_ name_.
+  Proof. reflexivity. Qed.
+  Lemma maps_eq_Mk_Base : forall loc_ name_ args_, maps_Base g (Mk_Base loc_ name_ args_) = Mk_Base loc_ name_ (match args_ with Some y324 => Some (map (fun y325 => ((maps_Expression g) y325)) y324) | None => None end).
+  Proof. reflexivity. Qed.
+  Lemma maps_eq_Mk_NamedArgument : forall loc_ name_ expr_, maps_NamedArgument g (Mk_NamedArgument loc_ name_ expr_) = Mk_NamedArgument loc_ name_ ((maps_Expression g) expr_).
+  Proof. reflexivity. Qed.
+  Lemma maps_eq_Expression_PostIncrement : forall a0 a1, maps_Expression g (Expression_PostIncrement a0 a1) = Expression_PostIncrement a0 ((maps_Expression g) a1).
+  Proof. reflexivity. Qed.
+  Lemma maps_eq_Expression_PostDecrement : forall a0 a1, maps_Expression g (Expression_PostDecrement a0 a1) = Expression_PostDecrement a0 ((maps_Expression g) a1).
+  Proof. reflexivity. Qed.
+  Lemma maps_eq_Expression_New : forall a0 a1, maps_Expression g (Expression_New a0 a1) = Expression_New a0 ((maps_Expression g) a1).
+  Proof. reflexivity. Qed.
+  Lemma maps_eq_Expression_ArraySubscript : forall a0 a1 a2, maps_Expression g (Expression_ArraySubscript a0 a1 a2) = Expression_ArraySubscript a0 ((maps_Expression g) a1) (match a2 with Some y326 => Some ((maps_Expression g) y326) | None => None end).
+  Proof. reflexivity. Qed.
+  Lemma maps_eq_Expression_ArraySlice : forall a0 a1 a2 a3, maps_Expression g (Expression_ArraySlice a0 a1 a2 a3) = Expression_ArraySlice a0 ((maps_Expression g) a1) (match a2 with Some y327 => Some ((maps_Expression g) y327) | None => None end) (match a3 with Some y328 => Some ((maps_Expression g) y328) | None => None end).
+  Proof. reflexivity. Qed.
+  Lemma maps_eq_Expression_Parenthesis : forall a0 a1, maps_Expression g (Expression_Parenthesis a0 a1) = Expression_Parenthesis a0 ((maps_Expression g) a1).
+  Proof. reflexivity. Qed.
+  Lemma maps_eq_Expression_MemberAccess : forall a0 a1 a2, maps_Expression g (Expression_MemberAccess a0 a1 a2) = Expression_MemberAccess a0 ((maps_Expression g) a1) a2.
+  Proof. reflexivity. Qed.
+  Lemma maps_eq_Expression_FunctionCall : forall a0 a1 a2, maps_Expression g (Expression_FunctionCall a0 a1 a2) = Expression_FunctionCall a0 ((maps_Expression g) a1) (map (fun y329 => ((maps_Expression g) y329)) a2).
+  Proof. reflexivity. Qed.
+  Lemma maps_eq_Expression_FunctionCallBlock : forall a0 a1 a2, maps_Expression g (Expression_FunctionCallBlock a0 a1 a2) = Expression_FunctionCallBlock a0 ((maps_Expression g) a1) ((maps_Statement g) a2).
+  Proof. reflexivity. Qed.
+  Lemma maps_eq_Expression_NamedFunctionCall : forall a0 a1 a2, maps_Expression g (Expression_NamedFunctionCall a0 a1 a2) = Expression_NamedFunctionCall a0 ((maps_Expression g) a1) (map (fun y330 => ((maps_NamedArgument g) y330)) a2).
+  Proof. reflexivity. Qed.
+  Lemma maps_eq_Expression_Not : forall a0 a1, maps_Expression g (Expression_Not a0 a1) = Expression_Not a0 ((maps_Expression g) a1).
+  Proof. reflexivity. Qed.
+  Lemma maps_eq_Expression_Complement : forall a0 a1, maps_Expression g (Expression_Complement a0 a1) = Expression_Complement a0 ((maps_Expression g) a1).
+  Proof. reflexivity. Qed.
+  Lemma maps_eq_Expression_Delete : forall a0 a1, maps_Expression g (Expression_Delete a0 a1) = Expression_Delete a0 ((maps_Expression g) a1).
+  Proof. reflexivity. Qed.
+  Lemma maps_eq_Expression_PreIncrement : forall a0 a1, maps_Expression g (Expression_PreIncrement a0 a1) = Expression_PreIncrement a0 ((maps_Expression g) a1).
+  Proof. reflexivity. Qed.
+  Lemma maps_eq_Expression_PreDecrement : forall a0 a1, maps_Expression g (Expression_PreDecrement a0 a1) = Expression_PreDecrement a0 ((maps_Expression g) a1).
+  Proof. reflexivity. Qed.
+  Lemma maps_eq_Expression_UnaryPlus : forall a0 a1, maps_Expression g (Expression_UnaryPlus a0 a1) = Expression_UnaryPlus a0 ((maps_Expression g) a1).
+  Proof. reflexivity. Qed.
+  Lemma maps_eq_Expression_UnaryMinus : forall a0 a1, maps_Expression g (Expression_UnaryMinus a0 a1) = Expression_UnaryMinus a0 ((maps_Expression g) a1).
+  Proof. reflexivity. Qed.
+  Lemma maps_eq_Expression_Power : forall a0 a1 a2, maps_Expression g (Expression_Power a0 a1 a2) = Expression_Power a0 ((maps_Expression g) a1) ((maps_Expression g) a2).
+  Proof. reflexivity. Qed.
+  Lemma maps_eq_Expression_Multiply : forall a0 a1 a2, maps_Expression g (Expression_Multiply a0 a1 a2) = Expression_Multiply a0 ((maps_Expression g) a1) ((maps_Expression g) a2).
+  Proof. reflexivity. Qed.
+  Lemma maps_eq_Expression_Divide : forall a0 a1 a2, maps_Expression g (Expression_Divide a0 a1 a2) = Expression_Divide a0 ((maps_Expression g) a1) ((maps_Expression g) a2).
+  Proof. reflexivity. Qed.
+  Lemma maps_eq_Expression_Modulo : forall a0 a1 a2, maps_Expression g (Expression_Modulo a0 a1 a2) = Expression_Modulo a0 ((maps_Expression g) a1) ((maps_Expression g) a2).
+  Proof. reflexivity. Qed.
+  Lemma maps_eq_Expression_Add : forall a0 a1 a2, maps_Expression g (Expression_Add a0 a1 a2) = Expression_Add a0 ((maps_Expression g) a1) ((maps_Expression g) a2).
+  Proof. reflexivity. Qed.
+  Lemma maps_eq_Expression_Subtract : forall a0 a1 a2, maps_Expression g (Expression_Subtract a0 a1 a2) = Expression_Subtract a0 ((maps_Expression g) a1) ((maps_Expression g) a2).
+  Proof. reflexivity. Qed.
+  Lemma maps_eq_Expression_ShiftLeft : forall a0 a1 a2, maps_Expression g (Expression_ShiftLeft a0 a1 a2) = Expression_ShiftLeft a0 ((maps_Expression g) a1) ((maps_Expression g) a2).
+  Proof. reflexivity. Qed.
+  Lemma maps_eq_Expression_ShiftRight : forall a0 a1 a2, maps_Expression g (Expression_ShiftRight a0 a1 a2) = Expression_ShiftRight a0 ((maps_Expression g) a1) ((maps_Expression g) a2).
+  Proof. reflexivity. Qed.
+  Lemma maps_eq_Expression_BitwiseAnd : forall a0 a1 a2, maps_Expression g (Expression_BitwiseAnd a0 a1 a2) = Expression_BitwiseAnd a0 ((maps_Expression g) a1) ((maps_Expression g) a2).
+  Proof. reflexivity. Qed.
+  Lemma maps_eq_Expression_BitwiseXor : forall a0 a1 a2, maps_Expression g (Expression_BitwiseXor a0 a1 a2) = Expression_BitwiseXor a0 ((maps_Expression g) a1) ((maps_Expression g) a2).
+  Proof. reflexivity. Qed.
+  Lemma maps_eq_Expression_BitwiseOr : forall a0 a1 a2, maps_Expression g (Expression_BitwiseOr a0 a1 a2) = Expression_BitwiseOr a0 ((maps_Expression g) a1) ((maps_Expression g) a2).
+  Proof. reflexivity. Qed.
+  Lemma maps_eq_Expression_Less : forall a0 a1 a2, maps_Expression g (Expression_Less a0 a1 a2) = Expression_Less a0 ((maps_Expression g) a1) ((maps_Expression g) a2).
+  Proof. reflexivity. Qed.
+  Lemma maps_eq_Expression_More : forall a0 a1 a2, maps_Expression g (Expression_More a0 a1 a2) = Expression_More a0 ((maps_Expression g) a1) ((maps_Expression g) a2).
+  Proof. reflexivity. Qed.
+  Lemma maps_eq_Expression_LessEqual : forall a0 a1 a2, maps_Expression g (Expression_LessEqual a0 a1 a2) = Expression_LessEqual a0 ((maps_Expression g) a1) ((maps_Expression g) a2).
+  Proof. reflexivity. Qed.
+  Lemma maps_eq_Expression_MoreEqual : forall a0 a1 a2, maps_Expression g (Expression_MoreEqual a0 a1 a2) = Expression_MoreEqual a0 ((maps_Expression g) a1) ((maps_Expression g) a2).
+  Proof. reflexivity. Qed.
+  Lemma maps_eq_Expression_Equal : forall a0 a1 a2, maps_Expression g (Expression_Equal a0 a1 a2) = Expression_Equal a0 ((maps_Expression g) a1) ((maps_Expression g) a2).
+  Proof. reflexivity. Qed.
+  Lemma maps_eq_Expression_NotEqual : forall a0 a1 a2, maps_Expression g (Expression_NotEqual a0 a1 a2) = Expression_NotEqual a0 ((maps_Expression g) a1) ((maps_Expression g) a2).
+  Proof. reflexivity. Qed.
+  Lemma maps_eq_Expression_And : forall a0 a1 a2, maps_Expression g (Expression_And a0 a1 a2) = Expression_And a0 ((maps_Expression g) a1) ((maps_Expression g) a2).
+  Proof. reflexivity. Qed.
+  Lemma maps_eq_Expression_Or : forall a0 a1 a2, maps_Expression g (Expression_Or a0 a1 a2) = Expression_Or a0 ((maps_Expression g) a1) ((maps_Expression g) a2).
+  Proof. reflexivity. Qed.
+  Lemma maps_eq_Expression_Ternary : forall a0 a1 a2 a3, maps_Expression g (Expression_Ternary a0 a1 a2 a3) = Expression_Ternary a0 ((maps_Expression g) a1) ((maps_Expression g) a2) ((maps_Expression g) a3).
+  Proof. reflexivity. Qed.
+  Lemma maps_eq_Expression_Assign : forall a0 a1 a2, maps_Expression g (Expression_Assign a0 a1 a2) = Expression_Assign a0 ((maps_Expression g) a1) ((maps_Expression g) a2).
+  Proof. reflexivity. Qed.
+  Lemma maps_eq_Expression_AssignOr : forall a0 a1 a2, maps_Expression g (Expression_AssignOr a0 a1 a2) = Expression_AssignOr a0 ((maps_Expression g) a1) ((maps_Expression g) a2).
+  Proof. reflexivity. Qed.
+  Lemma maps_eq_Expression_AssignAnd : forall a0 a1 a2, maps_Expression g (Expression_AssignAnd a0 a1 a2) = Expression_AssignAnd a0 ((maps_Expression g) a1) ((maps_Expression g) a2).
+  Proof. reflexivity. Qed.
+  Lemma maps_eq_Expression_AssignXor : forall a0 a1 a2, maps_Expression g (Expression_AssignXor a0 a1 a2) = Expression_AssignXor a0 ((maps_Expression g) a1) ((maps_Expression g) a2).
+  Proof. reflexivity. Qed.
+  Lemma maps_eq_Expression_AssignShiftLeft : forall a0 a1 a2, maps_Expression g (Expression_AssignShiftLeft a0 a1 a2) = Expression_AssignShiftLeft a0 ((maps_Expression g) a1) ((maps_Expression g) a2).
+  Proof. reflexivity. Qed.
+  Lemma maps_eq_Expression_AssignShiftRight : forall a0 a1 a2, maps_Expression g (Expression_AssignShiftRight a0 a1 a2) = Expression_AssignShiftRight a0 ((maps_Expression g) a1) ((maps_Expression g) a2).
+  Proof. reflexivity. Qed.
+  Lemma maps_eq_Expression_AssignAdd : forall a0 a1 a2, maps_Expression g (Expression_AssignAdd a0 a1 a2) = Expression_AssignAdd a0 ((maps_Expression g) a1) ((maps_Expression g) a2).
+  Proof. reflexivity. Qed.
+  Lemma maps_eq_Expression_AssignSubtract : forall a0 a1 a2, maps_Expression g (Expression_AssignSubtract a0 a1 a2) = Expression_AssignSubtract a0 ((maps_Expression g) a1) ((maps_Expression g) a2).
+  Proof. reflexivity. Qed.
+  Lemma maps_eq_Expression_AssignMultiply : forall a0 a1 a2, maps_Expression g (Expression_AssignMultiply a0 a1 a2) = Expression_AssignMultiply a0 ((maps_Expression g) a1) ((maps_Expression g) a2).
+  Proof. reflexivity. Qed.
+  Lemma maps_eq_Expression_AssignDivide : forall a0 a1 a2, maps_Expression g (Expression_AssignDivide a0 a1 a2) = Expression_AssignDivide a0 ((maps_Expression g) a1) ((maps_Expression g) a2).
+  Proof. reflexivity. Qed.
+  Lemma maps_eq_Expression_AssignModulo : forall a0 a1 a2, maps_Expression g (Expression_AssignModulo a0 a1 a2) = Expression_AssignModulo a0 ((maps_Expression g) a1) ((maps_Expression g) a2).
+  Proof. reflexivity. Qed.
+  Lemma maps_eq_Expression_BoolLiteral : forall a0 a1, maps_Expression g (Expression_BoolLiteral a0 a1) = Expression_BoolLiteral a0 a1.
+  Proof. reflexivity. Qed.
+  Lemma maps_eq_Expression_NumberLiteral : forall a0 a1 a2, maps_Expression g (Expression_NumberLiteral a0 a1 a2) = Expression_NumberLiteral a0 a1 a2.
+  Proof. reflexivity. Qed.
+  Lemma maps_eq_Expression_RationalNumberLiteral : forall a0 a1 a2 a3, maps_Expression g (Expression_RationalNumberLiteral a0 a1 a2 a3) = Expression_RationalNumberLiteral a0 a1 a2 a3.
+  Proof. reflexivity. Qed.
+  Lemma maps_eq_Expression_HexNumberLiteral : forall a0 a1, maps_Expression g (Expression_HexNumberLiteral a0 a1) = Expression_HexNumberLiteral a0 a1.
+  Proof. reflexivity. Qed.
+  Lemma maps_eq_Expression_StringLiteral : forall a0, maps_Expression g (Expression_StringLiteral a0) = Expression_StringLiteral (map (maps_StringLiteral g) a0).
+  Proof. reflexivity. Qed.
+  Lemma maps_eq_Expression_Type : forall a0 a1, maps_Expression g (Expression_Type a0 a1) = Expression_Type a0 ((maps_Ty g) a1).
+  Proof. reflexivity. Qed.
+  Lemma maps_eq_Expression_HexLiteral : forall a0, maps_Expression g (Expression_HexLiteral a0) = Expression_HexLiteral a0.
+  Proof. reflexivity. Qed.
+  Lemma maps_eq_Expression_AddressLiteral : forall a0 a1, maps_Expression g (Expression_AddressLiteral a0 a1) = Expression_AddressLiteral a0 a1.
+  Proof. reflexivity. Qed.
+  Lemma maps_eq_Expression_Variable : forall a0, maps_Expression g (Expression_Variable a0) = Expression_Variable a0.
+  Proof. reflexivity. Qed.
+  Lemma maps_eq_Expression_List : forall a0 a1, maps_Expression g (Expression_List a0 a1) = Expression_List a0 (map (fun y331 => (match y331 with (y332, y333) => (y332, (match y333 with Some y334 => Some ((maps_Param g) y334) | None => None end)) end)) a1).
+  Proof. reflexivity. Qed.
+  Lemma maps_eq_Expression_ArrayLiteral : forall a0 a1, maps_Expression g (Expression_ArrayLiteral a0 a1) = Expression_ArrayLiteral a0 (map (fun y335 => ((maps_Expression g) y335)) a1).
+  Proof. reflexivity. Qed.
+  Lemma maps_eq_Expression_Unit : forall a0 a1 a2, maps_Expression g (Expression_Unit a0 a1 a2) = Expression_Unit a0 ((maps_Expression g) a1) a2.
+  Proof. reflexivity. Qed.
+  Lemma maps_eq_Expression_This : forall a0, maps_Expression g (Expression_This a0) = Expression_This a0.
+  Proof. reflexivity. Qed.
+  Lemma maps_eq_Mk_Param : forall loc_ ty_ storage_ name_, maps_Param g (Mk_Param loc_ ty_ storage_ name_) = Mk_Param loc_ ((maps_Expression g) ty_) storage_ name_.
+  Proof. reflexivity. Qed.
+  Lemma maps_eq_FunctionAttribute_Mutability : forall a0, maps_FunctionAttribute g (FunctionAttribute_Mutability a0) = FunctionAttribute_Mutability a0.
+  Proof. reflexivity. Qed.
+  Lemma maps_eq_FunctionAttribute_Visibility : forall a0, maps_FunctionAttribute g (FunctionAttribute_Visibility a0) = FunctionAttribute_Visibility a0.
+  Proof. reflexivity. Qed.
+  Lemma maps_eq_FunctionAttribute_Virtual : forall a0, maps_FunctionAttribute g (FunctionAttribute_Virtual a0) = FunctionAttribute_Virtual a0.
+  Proof. reflexivity. Qed.
+  Lemma maps_eq_FunctionAttribute_Immutable : forall a0, maps_FunctionAttribute g (FunctionAttribute_Immutable a0) = FunctionAttribute_Immutable a0.
+  Proof. reflexivity. Qed.
+  Lemma maps_eq_FunctionAttribute_Override : forall a0 a1, maps_FunctionAttribute g (FunctionAttribute_Override a0 a1) = FunctionAttribute_Override a0 a1.
+  Proof. reflexivity. Qed.
+  Lemma maps_eq_FunctionAttribute_BaseOrModifier : forall a0 a1, maps_FunctionAttribute g (FunctionAttribute_BaseOrModifier a0 a1) = FunctionAttribute_BaseOrModifier a0 ((maps_Base g) a1).
+  Proof. reflexivity. Qed.
+  Lemma maps_eq_FunctionAttribute_NameValue : forall a0 a1 a2, maps_FunctionAttribute g (FunctionAttribute_NameValue a0 a1 a2) = FunctionAttribute_NameValue a0 a1 ((maps_Expression g) a2).
+  Proof. reflexivity. Qed.
+  Lemma maps_eq_Statement_Block : forall loc_ unchecked_ statements_, maps_Statement g (Statement_Block loc_ unchecked_ statements_) = Statement_Block loc_ unchecked_ (map (fun y336 => ((maps_Statement g) y336)) statements_).
+  Proof. reflexivity. Qed.
+  Lemma maps_eq_Statement_Assembly : forall loc_ dialect_ flags_ block_, maps_Statement g (Statement_Assembly loc_ dialect_ flags_ block_) = Statement_Assembly loc_ dialect_ flags_ block_.
+  Proof. reflexivity. Qed.
+  Lemma maps_eq_Statement_Args : forall a0 a1, maps_Statement g (Statement_Args a0 a1) = Statement_Args a0 (map (fun y337 => ((maps_NamedArgument g) y337)) a1).
+  Proof. reflexivity. Qed.
+  Lemma maps_eq_Statement_If : forall a0 a1 a2 a3, maps_Statement g (Statement_If a0 a1 a2 a3) = Statement_If a0 ((maps_Expression g) a1) ((maps_Statement g) a2) (match a3 with Some y338 => Some ((maps_Statement g) y338) | None => None end).
+  Proof. reflexivity. Qed.
+  Lemma maps_eq_Statement_While : forall a0 a1 a2, maps_Statement g (Statement_While a0 a1 a2) = Statement_While a0 ((maps_Expression g) a1) ((maps_Statement g) a2).
+  Proof. reflexivity. Qed.
+  Lemma maps_eq_Statement_Expression : forall a0 a1, maps_Statement g (Statement_Expression a0 a1) = Statement_Expression a0 ((maps_Expression g) a1).
+  Proof. reflexivity. Qed.
+  Lemma maps_eq_Statement_VariableDefinition : forall a0 a1 a2, maps_Statement g (Statement_VariableDefinition a0 a1 a2) = Statement_VariableDefinition a0 ((maps_VariableDeclaration g) a1) (match a2 with Some y339 => Some ((maps_Expression g) y339) | None => None end).
+  Proof. reflexivity. Qed.
+  Lemma maps_eq_Statement_For : forall a0 a1 a2 a3 a4, maps_Statement g (Statement_For a0 a1 a2 a3 a4) = Statement_For a0 (match a1 with Some y340 => Some ((maps_Statement g) y340) | None => None end) (match a2 with Some y341 => Some ((maps_Expression g) y341) | None => None end) (match a3 with Some y342 => Some ((maps_Statement g) y342) | None => None end) (match a4 with Some y343 => Some ((maps_Statement g) y343) | None => None end).
+  Proof. reflexivity. Qed.
+  Lemma maps_eq_Statement_DoWhile : forall a0 a1 a2, maps_Statement g (Statement_DoWhile a0 a1 a2) = Statement_DoWhile a0 ((maps_Statement g) a1) ((maps_Expression g) a2).
+  Proof. reflexivity. Qed.
+  Lemma maps_eq_Statement_Continue : forall a0, maps_Statement g (Statement_Continue a0) = Statement_Continue a0.
+  Proof. reflexivity. Qed.
+  Lemma maps_eq_Statement_Break : forall a0, maps_Statement g (Statement_Break a0) = Statement_Break a0.
+  Proof. reflexivity. Qed.
+  Lemma maps_eq_Statement_Return : forall a0 a1, maps_Statement g (Statement_Return a0 a1) = Statement_Return a0 (match a1 with Some y344 => Some ((maps_Expression g) y344) | None => None end).
+  Proof. reflexivity. Qed.
+  Lemma maps_eq_Statement_Revert : forall a0 a1 a2, maps_Statement g (Statement_Revert a0 a1 a2) = Statement_Revert a0 a1 (map (fun y345 => ((maps_Expression g) y345)) a2).
+  Proof. reflexivity. Qed.
+  Lemma maps_eq_Statement_RevertNamedArgs : forall a0 a1 a2, maps_Statement g (Statement_RevertNamedArgs a0 a1 a2) = Statement_RevertNamedArgs a0 a1 (map (fun y346 => ((maps_NamedArgument g) y346)) a2).
+  Proof. reflexivity. Qed.
+  Lemma maps_eq_Statement_Emit : forall a0 a1, maps_Statement g (Statement_Emit a0 a1) = Statement_Emit a0 ((maps_Expression g) a1).
+  Proof. reflexivity. Qed.
+  Lemma maps_eq_Statement_Try : forall a0 a1 a2 a3, maps_Statement g (Statement_Try a0 a1 a2 a3) = Statement_Try a0 ((maps_Expression g) a1) (match a2 with Some y347 => Some (match y347 with (y348, y349) => ((map (fun y350 => (match y350 with (y351, y352) => (y351, (match y352 with Some y353 => Some ((maps_Param g) y353) | None => None end)) end)) y348), ((maps_Statement g) y349)) end) | None => None end) (map (fun y354 => ((maps_CatchClause g) y354)) a3).
+  Proof. reflexivity. Qed.
+  Lemma maps_eq_CatchClause_Simple : forall a0 a1 a2, maps_CatchClause g (CatchClause_Simple a0 a1 a2) = CatchClause_Simple a0 (match a1 with Some y355 => Some ((maps_Param g) y355) | None => None end) ((maps_Statement g) a2).
+  Proof. reflexivity. Qed.
+  Lemma maps_eq_CatchClause_Named : forall a0 a1 a2 a3, maps_CatchClause g (CatchClause_Named a0 a1 a2 a3) = CatchClause_Named a0 a1 ((maps_Param g) a2) ((maps_Statement g) a3).
+  Proof. reflexivity. Qed.
+End MapsEqs.
+#[export] Hint Rewrite maps_eq_Ty_Address maps_eq_Ty_AddressPayable maps_eq_Ty_Payable maps_eq_Ty_Bool maps_eq_Ty_String maps_eq_Ty_Int maps_eq_Ty_Uint maps_eq_Ty_Bytes maps_eq_Ty_Rational maps_eq_Ty_DynamicBytes maps_eq_Ty_Mapping maps_eq_Ty_Function maps_eq_Mk_VariableDeclaration maps_eq_Mk_Base maps_eq_Mk_NamedArgument maps_eq_Expression_PostIncrement maps_eq_Expression_PostDecrement maps_eq_Expression_New maps_eq_Expression_ArraySubscript maps_eq_Expression_ArraySlice : maps_eqs.
+#[export] Hint Rewrite maps_eq_Expression_Parenthesis maps_eq_Expression_MemberAccess maps_eq_Expression_FunctionCall maps_eq_Expression_FunctionCallBlock maps_eq_Expression_NamedFunctionCall maps_eq_Expression_Not maps_eq_Expression_Complement maps_eq_Expression_Delete maps_eq_Expression_PreIncrement maps_eq_Expression_PreDecrement maps_eq_Expression_UnaryPlus maps_eq_Expression_UnaryMinus maps_eq_Expression_Power maps_eq_Expression_Multiply maps_eq_Expression_Divide maps_eq_Expression_Modulo maps_eq_Expression_Add maps_eq_Expression_Subtract maps_eq_Expression_ShiftLeft maps_eq_Expression_ShiftRight : maps_eqs.
+#[export] Hint Rewrite maps_eq_Expression_BitwiseAnd maps_eq_Expression_BitwiseXor maps_eq_Expression_BitwiseOr maps_eq_Expression_Less maps_eq_Expression_More maps_eq_Expression_LessEqual maps_eq_Expression_MoreEqual maps_eq_Expression_Equal maps_eq_Expression_NotEqual maps_eq_Expression_And maps_eq_Expression_Or maps_eq_Expression_Ternary maps_eq_Expression_Assign maps_eq_Expression_AssignOr maps_eq_Expression_AssignAnd maps_eq_Expression_AssignXor maps_eq_Expression_AssignShiftLeft maps_eq_Expression_AssignShiftRight maps_eq_Expression_AssignAdd maps_eq_Expression_AssignSubtract : maps_eqs.
+#[export] Hint Rewrite maps_eq_Expression_AssignMultiply maps_eq_Expression_AssignDivide maps_eq_Expression_AssignModulo maps_eq_Expression_BoolLiteral maps_eq_Expression_NumberLiteral maps_eq_Expression_RationalNumberLiteral maps_eq_Expression_HexNumberLiteral maps_eq_Expression_StringLiteral maps_eq_Expression_Type maps_eq_Expression_HexLiteral maps_eq_Expression_AddressLiteral maps_eq_Expression_Variable maps_eq_Expression_List maps_eq_Expression_ArrayLiteral maps_eq_Expression_Unit maps_eq_Expression_This maps_eq_Mk_Param maps_eq_FunctionAttribute_Mutability maps_eq_FunctionAttribute_Visibility maps_eq_FunctionAttribute_Virtual : maps_eqs.
+#[export] Hint Rewrite maps_eq_FunctionAttribute_Immutable maps_eq_FunctionAttribute_Override maps_eq_FunctionAttribute_BaseOrModifier maps_eq_FunctionAttribute_NameValue maps_eq_Statement_Block maps_eq_Statement_Assembly maps_eq_Statement_Args maps_eq_Statement_If maps_eq_Statement_While maps_eq_Statement_Expression maps_eq_Statement_VariableDefinition maps_eq_Statement_For maps_eq_Statement_DoWhile maps_eq_Statement_Continue maps_eq_Statement_Break maps_eq_Statement_Return maps_eq_Statement_Revert maps_eq_Statement_RevertNamedArgs maps_eq_Statement_Emit maps_eq_Statement_Try : maps_eqs.
+#[export] Hint Rewrite maps_eq_CatchClause_Simple maps_eq_CatchClause_Named : maps_eqs.
+
+(* ------------------------------------------------------------------------------------------
+   Part 3: no detector can tell a tree from the same tree with rewritten string-literal text,
+   as long as the rewriting preserves the byte length.  Proved directly on the model functions
+   (exact equality of the `res (list Loc)`, panics included). *)
+
+(* generic combinator lemmas *)
+Lemma mapM_map_ext {A B C} (f : A -> res C) (f' : B -> res C) (h : B -> A) l :
+  (forall x, f (h x) = f' x) -> mapM f (map h l) = mapM f' l.
+Proof.
+  intros H. induction l as [|x l IH]; [reflexivity|]. cbn [map mapM]. rewrite H, IH. reflexivity.
+Qed.
+
+Lemma mapM_map_rmap {A B C D} (f : A -> res C) (f' : B -> res D) (h : B -> A) (k : D -> C) l :
+  (forall x, f (h x) = rmap k (f' x)) -> mapM f (map h l) = rmap (map k) (mapM f' l).
+Proof.
+  intros H. induction l as [|x l IH]; [reflexivity|]. cbn [map mapM]. rewrite H, IH.
+  destruct (f' x) as [y|s]; cbn [rmap bind]; [|reflexivity].
+  destruct (mapM f' l) as [ys|s]; reflexivity.
+Qed.
+
+Lemma foldM_map_ext {A B S} (f : S -> A -> res S) (f' : S -> B -> res S) (h : B -> A) l :
+  (forall s x, f s (h x) = f' s x) -> forall s, foldM f (map h l) s = foldM f' l s.
+Proof.
+  intros H. induction l as [|x l IH]; intros s; [reflexivity|]. cbn [map foldM]. rewrite H.
+  destruct (f' s x) as [s'|e]; cbn [bind]; [apply IH|reflexivity].
+Qed.
+
+Lemma fold_left_map_ext {A B S} (f : S -> A -> S) (f' : S -> B -> S) (h : B -> A) l :
+  (forall s x, f s (h x) = f' s x) -> forall s, fold_left f (map h l) s = fold_left f' l s.
+Proof.
+  intros H. induction l as [|x l IH]; intros s; [reflexivity|]. cbn [map fold_left]. rewrite H. apply IH.
+Qed.
+
+Lemma flat_map_map_ext {A B C} (f : A -> list C) (f' : B -> list C) (h : B -> A) l :
+  (forall x, f (h x) = f' x) -> flat_map f (map h l) = flat_map f' l.
+Proof.
+  intros H. induction l as [|x l IH]; [reflexivity|]. cbn [map flat_map]. rewrite H, IH. reflexivity.
+Qed.
+
+Lemma flat_map_map_map {A B C D} (f : A -> list C) (f' : B -> list D) (h : B -> A) (k : D -> C) l :
+  (forall x, f (h x) = map k (f' x)) -> flat_map f (map h l) = map k (flat_map f' l).
+Proof.
+  intros H. induction l as [|x l IH]; [reflexivity|]. cbn [map flat_map]. rewrite map_app, H, IH. reflexivity.
+Qed.
+
+Lemma existsb_map_ext {A B} (f : A -> bool) (f' : B -> bool) (h : B -> A) l :
+  (forall x, f (h x) = f' x) -> existsb f (map h l) = existsb f' l.
+Proof.
+  intros H. induction l as [|x l IH]; [reflexivity|]. cbn [map existsb]. rewrite H, IH. reflexivity.
+Qed.
+
+Lemma bind_rmap {A B C} (k : A -> B) (r : res A) (F : B -> res C) :
+  bind (rmap k r) F = bind r (fun x => F (k x)).
+Proof. destruct r; reflexivity. Qed.
+
+Lemma bind_ext {A B} (r : res A) (F G : A -> res B) : (forall x, F x = G x) -> bind r F = bind r G.
+Proof. intros H. destruct r; cbn [bind]; [apply H|reflexivity]. Qed.
+
+Lemma last_map_some_map {A B} (h : A -> B) (l : list A) :
+  last (map Some (map h l)) None = option_map h (last (map Some l) None).
+Proof.
+  induction l as [|a l IH]; [reflexivity|]. cbn [map last].
+  destruct l as [|b l]; [reflexivity|]. exact IH.
+Qed.
+
+Section Blind.
+  Variable g : string -> string.
+  Hypothesis Hlen : forall s, String.length (g s) = String.length s.
+
+  Notation mn := (maps_node g).
+  Notation mE := (maps_Expression g).
+  Notation mS := (maps_Statement g).
+
+  Lemma extract1_maps t n : extract_target_from_node t (mn n) = map mn (extract_target_from_node t n).
+  Proof. apply walk_maps. Qed.
+  Lemma extractN_maps ts n : extract_targets_from_node ts (mn n) = map mn (extract_targets_from_node ts n).
+  Proof. apply walk_maps. Qed.
+  Lemma root_maps su : root (maps_SourceUnit g su) = mn (root su).
+  Proof. reflexivity. Qed.
+  Lemma NSU_maps su : N_SourceUnit (maps_SourceUnit g su) = mn (N_SourceUnit su).
+  Proof. reflexivity. Qed.
+  Lemma NE_maps e : N_Expression (mE e) = mn (N_Expression e).
+  Proof. reflexivity. Qed.
+  Lemma NS_maps s : N_Statement (mS s) = mn (N_Statement s).
+  Proof. reflexivity. Qed.
+  Lemma NCP_maps p : N_ContractPart (maps_ContractPart g p) = mn (N_ContractPart p).
+  Proof. reflexivity. Qed.
+
+  Lemma unwrap_expr_maps site n :
+    unwrap site (node_expression (mn n)) = rmap mE (unwrap site (node_expression n)).
+  Proof. destruct n; reflexivity. Qed.
+  Lemma unwrap_stmt_maps site n :
+    unwrap site (node_statement (mn n)) = rmap mS (unwrap site (node_statement n)).
+  Proof. destruct n; reflexivity. Qed.
+  Lemma unwrap_sup_maps site n :
+    unwrap site (node_source_unit_part (mn n)) = rmap (maps_SourceUnitPart g) (unwrap site (node_source_unit_part n)).
+  Proof. destruct n; reflexivity. Qed.
+  Lemma unwrap_cp_maps site n :
+    unwrap site (node_contract_part (mn n)) = rmap (maps_ContractPart g) (unwrap site (node_contract_part n)).
+  Proof. destruct n; reflexivity. Qed.
+
+  Lemma mapM_unwrap_sup site ns :
+    mapM (fun n => unwrap site (node_source_unit_part n)) (map mn ns)
+    = rmap (map (maps_SourceUnitPart g)) (mapM (fun n => unwrap site (node_source_unit_part n)) ns).
+  Proof. apply mapM_map_rmap. intros n. apply unwrap_sup_maps. Qed.
+  Lemma mapM_unwrap_cp site ns :
+    mapM (fun n => unwrap site (node_contract_part n)) (map mn ns)
+    = rmap (map (maps_ContractPart g)) (mapM (fun n => unwrap site (node_contract_part n)) ns).
+  Proof. apply mapM_map_rmap. intros n. apply unwrap_cp_maps. Qed.
+  Lemma mapM_unwrap_expr site ns :
+    mapM (fun n => unwrap site (node_expression n)) (map mn ns)
+    = rmap (map mE) (mapM (fun n => unwrap site (node_expression n)) ns).
+  Proof. apply mapM_map_rmap. intros n. apply unwrap_expr_maps. Qed.
+
+  Lemma each_expr_maps ns f : (forall e, f (mE e) = f e) -> each_expr (map mn ns) f = each_expr ns f.
+  Proof.
+    intros H. unfold each_expr. f_equal. apply mapM_map_ext. intros n. rewrite unwrap_expr_maps.
+    destruct (unwrap _ (node_expression n)); cbn [rmap]; [rewrite H|]; reflexivity.
+  Qed.
+  Lemma each_stmt_maps ns f : (forall s, f (mS s) = f s) -> each_stmt (map mn ns) f = each_stmt ns f.
+  Proof.
+    intros H. unfold each_stmt. f_equal. apply mapM_map_ext. intros n. rewrite unwrap_stmt_maps.
+    destruct (unwrap _ (node_statement n)); cbn [rmap bind]; [apply H|reflexivity].
+  Qed.
+  Lemma each_sup_maps ns f :
+    (forall p, f (maps_SourceUnitPart g p) = f p) -> each_sup (map mn ns) f = each_sup ns f.
+  Proof.
+    intros H. unfold each_sup. f_equal. apply mapM_map_ext. intros n. rewrite unwrap_sup_maps.
+    destruct (unwrap _ (node_source_unit_part n)); cbn [rmap bind]; [apply H|reflexivity].
+  Qed.
+
+  (* unfolding maps_* on a constructor: by the equations above (cbn would expose the raw mutual fix) *)
+  Ltac scbn := autorewrite with maps_eqs; cbn [map maps_StringLiteral].
+
+  Ltac deep :=
+    repeat (scbn;
+            match goal with
+            | |- context [match maps_Expression g ?c with _ => _ end] => destruct c; try reflexivity
+            | |- context [match maps_Ty g ?t with _ => _ end] => destruct t; try reflexivity
+            | |- context [match map _ ?l with _ => _ end] => destruct l; try reflexivity
+            | |- context [match (match ?o with Some _ => _ | None => _ end) with _ => _ end] =>
+                destruct o; try reflexivity
+            end);
+    scbn; try reflexivity.
+
+  Ltac pred := let e := fresh "e" in intros e; destruct e; try reflexivity; deep.
+
+  (* ---- accessors *)
+  Lemma FD_ty_maps f : FunctionDefinition_ty (maps_FunctionDefinition g f) = FunctionDefinition_ty f.
+  Proof. destruct f; reflexivity. Qed.
+  Lemma FD_loc_maps f : FunctionDefinition_loc (maps_FunctionDefinition g f) = FunctionDefinition_loc f.
+  Proof. destruct f; reflexivity. Qed.
+  Lemma FD_name_maps f : FunctionDefinition_name (maps_FunctionDefinition g f) = FunctionDefinition_name f.
+  Proof. destruct f; reflexivity. Qed.
+  Lemma FD_body_maps f :
+    FunctionDefinition_body (maps_FunctionDefinition g f) = option_map mS (FunctionDefinition_body f).
+  Proof. destruct f as [? ? ? ? ? ? ? ? b]; destruct b; reflexivity. Qed.
+  Lemma FD_attributes_maps f :
+    FunctionDefinition_attributes (maps_FunctionDefinition g f)
+    = map (maps_FunctionAttribute g) (FunctionDefinition_attributes f).
+  Proof. destruct f; reflexivity. Qed.
+  Lemma is_constructor_maps f : is_constructor (maps_FunctionDefinition g f) = is_constructor f.
+  Proof. unfold is_constructor. rewrite FD_ty_maps. reflexivity. Qed.
+
+  Lemma VD_loc_maps v : VariableDefinition_loc (maps_VariableDefinition g v) = VariableDefinition_loc v.
+  Proof. destruct v; reflexivity. Qed.
+  Lemma VD_attrs_maps v : VariableDefinition_attrs (maps_VariableDefinition g v) = VariableDefinition_attrs v.
+  Proof. destruct v; reflexivity. Qed.
+  Lemma VD_name_maps v : VariableDefinition_name (maps_VariableDefinition g v) = VariableDefinition_name v.
+  Proof. destruct v; reflexivity. Qed.
+  Lemma VD_ty_maps v : VariableDefinition_ty (maps_VariableDefinition g v) = mE (VariableDefinition_ty v).
+  Proof. destruct v; reflexivity. Qed.
+
+  (* ---- local predicates of the detectors *)
+  Lemma check_for_address_zero_maps : forall e, check_for_address_zero (mE e) = check_for_address_zero e.
+  Proof. unfold check_for_address_zero. pred. Qed.
+  Lemma is_bool_literal_maps : forall e, is_bool_literal (mE e) = is_bool_literal e.
+  Proof. intros e; destruct e; reflexivity. Qed.
+  Lemma is_and_maps : forall e, is_and (mE e) = is_and e.
+  Proof. intros e; destruct e; reflexivity. Qed.
+  Lemma pow2_literal_maps : forall e, pow2_literal (mE e) = pow2_literal e.
+  Proof. intros e; destruct e; reflexivity. Qed.
+  Lemma is_Variable_named_maps : forall e, is_Variable_named (mE e) = is_Variable_named e.
+  Proof. intros e; destruct e; reflexivity. Qed.
+  Lemma written_name_maps : forall e, written_name (mE e) = written_name e.
+  Proof. unfold written_name. intros e; destruct e; try reflexivity; scbn; apply is_Variable_named_maps. Qed.
+  Lemma assigned_param_maps : forall e, assigned_param (mE e) = assigned_param e.
+  Proof. unfold assigned_param. pred. Qed.
+  (* immutable_variables looks at the KIND of the right-hand side only *)
+  Lemma is_a_non_value_type_maps : forall e, is_a_non_value_type (mE e) = is_a_non_value_type e.
+  Proof. unfold is_a_non_value_type. pred. Qed.
+  Lemma is_selfdestruct_maps : forall e, is_selfdestruct (mE e) = is_selfdestruct e.
+  Proof. intros e; destruct e; reflexivity. Qed.
+  Lemma is_type_conversion_callee_maps : forall e, is_type_conversion_callee (mE e) = is_type_conversion_callee e.
+  Proof. intros e; destruct e; reflexivity. Qed.
+  Lemma is_msg_sender_maps : forall e, is_msg_sender (mE e) = is_msg_sender e.
+  Proof. unfold is_msg_sender. pred. Qed.
+  Lemma incdec_loc_maps b : forall e, incdec_loc b (mE e) = incdec_loc b e.
+  Proof. intros e; destruct e; reflexivity. Qed.
+  Lemma get_type_size_maps : forall e, get_type_size (mE e) = get_type_size e.
+  Proof. unfold get_type_size. pred. Qed.
+
+  Lemma mul_chain_has_div_maps : forall e, mul_chain_has_div (mE e) = mul_chain_has_div e.
+  Proof. induction e; try reflexivity; scbn; cbn [mul_chain_has_div]; assumption. Qed.
+  Lemma arith_chain_has_mul_maps : forall e, arith_chain_has_mul (mE e) = arith_chain_has_mul e.
+  Proof. induction e; try reflexivity; scbn; cbn [arith_chain_has_mul]; assumption. Qed.
+
+  Lemma sender_check_arg_maps : forall e, sender_check_arg (mE e) = sender_check_arg e.
+  Proof.
+    intros e. destruct e; try reflexivity.
+    - unfold sender_check_arg at 2. rewrite <- (is_msg_sender_maps (Expression_MemberAccess _ _ _)).
+      scbn. reflexivity.
+    - scbn. unfold sender_check_arg. rewrite !is_msg_sender_maps. reflexivity.
+    - scbn. unfold sender_check_arg. rewrite !is_msg_sender_maps. reflexivity.
+  Qed.
+  Lemma sender_check_call_maps : forall e, sender_check_call (mE e) = sender_check_call e.
+  Proof.
+    intros e. destruct e; try reflexivity. scbn. unfold sender_check_call.
+    rewrite is_selfdestruct_maps, is_type_conversion_callee_maps.
+    rewrite (existsb_map_ext _ sender_check_arg mE); [reflexivity|apply sender_check_arg_maps].
+  Qed.
+
+  Lemma arith10_maps e :
+    arith10 (mE e) = option_map (fun p => (mE (fst p), mE (snd p))) (arith10 e).
+  Proof. destruct e; reflexivity. Qed.
+  Lemma subscript_of_maps a b : forall e, subscript_of a b (mE e) = subscript_of a b e.
+  Proof. unfold subscript_of. pred. Qed.
+  Lemma assign_update_match_maps : forall e, assign_update_match (mE e) = assign_update_match e.
+  Proof.
+    intros e. destruct e; try reflexivity. unfold assign_update_match.
+    repeat (scbn;
+            match goal with
+            | |- context [match maps_Expression g ?c with _ => _ end] => is_var c; destruct c; try reflexivity
+            | |- context [match (match ?o with Some _ => _ | None => _ end) with _ => _ end] =>
+                is_var o; destruct o; try reflexivity
+            end).
+    scbn. rewrite arith10_maps. destruct (arith10 _) as [[x y]|]; [|reflexivity]. cbn [option_map fst snd].
+    rewrite ?subscript_of_maps. destruct x; try reflexivity. scbn.
+    match goal with |- context [match maps_Expression g ?c with _ => _ end] => destruct c; reflexivity end.
+  Qed.
+
+  (* ---- shared sub-computations *)
+  Lemma contract_nodes_maps su : contract_nodes (maps_SourceUnit g su) = map mn (contract_nodes su).
+  Proof. unfold contract_nodes. rewrite root_maps. apply extract1_maps. Qed.
+
+  Lemma add_var_maps ic ii m v : add_var ic ii m (maps_VariableDefinition g v) = add_var ic ii m v.
+  Proof.
+    destruct v as [l ty attrs nm oi]. unfold add_var, maps_VariableDefinition.
+    destruct (var_skipped ic ii attrs); [reflexivity|]. destruct ty; try reflexivity. scbn.
+    match goal with |- context [match maps_Ty g ?t with _ => _ end] => destruct t; reflexivity end.
+  Qed.
+
+  Lemma add_part_vars_maps ic ii m p : add_part_vars ic ii m (maps_ContractPart g p) = add_part_vars ic ii m p.
+  Proof. destruct p; try reflexivity. cbn [maps_ContractPart add_part_vars]. apply add_var_maps. Qed.
+
+  Lemma add_contract_vars_maps ic ii m p :
+    add_contract_vars ic ii m (maps_SourceUnitPart g p) = add_contract_vars ic ii m p.
+  Proof.
+    destruct p as [c| | | | | | | | | | |]; try reflexivity. destruct c as [l ty nm bases parts].
+    cbn [maps_SourceUnitPart maps_ContractDefinition add_contract_vars ContractDefinition_parts].
+    apply fold_left_map_ext. intros s x. apply add_part_vars_maps.
+  Qed.
+
+  Lemma sv_maps su ic ii :
+    get_32_byte_storage_variables (maps_SourceUnit g su) ic ii = get_32_byte_storage_variables su ic ii.
+  Proof.
+    unfold get_32_byte_storage_variables. rewrite contract_nodes_maps, mapM_unwrap_sup, bind_rmap.
+    apply bind_ext. intros parts. f_equal. apply fold_left_map_ext. intros s x. apply add_contract_vars_maps.
+  Qed.
+
+  Lemma remove_written_maps {V} ns (m : smap V) : remove_written (map mn ns) m = remove_written ns m.
+  Proof.
+    unfold remove_written. apply foldM_map_ext. intros s n. rewrite unwrap_expr_maps.
+    destruct (unwrap _ (node_expression n)) as [e|]; cbn [rmap bind]; [|reflexivity].
+    rewrite written_name_maps. reflexivity.
+  Qed.
+
+  Lemma first_solidity_pragma_maps parts :
+    first_solidity_pragma (map (maps_SourceUnitPart g) parts) = first_solidity_pragma parts.
+  Proof.
+    induction parts as [|p parts IH]; [reflexivity|].
+    destruct p; cbn [map maps_SourceUnitPart first_solidity_pragma]; try exact IH. rewrite IH. reflexivity.
+  Qed.
+
+  (* the pragma value is not a string-literal expression: the version is untouched *)
+  Lemma version_maps su :
+    get_solidity_version_from_source_unit (maps_SourceUnit g su) = get_solidity_version_from_source_unit su.
+  Proof.
+    unfold get_solidity_version_from_source_unit. rewrite root_maps, extract1_maps, mapM_unwrap_sup, bind_rmap.
+    apply bind_ext. intros parts. rewrite first_solidity_pragma_maps. reflexivity.
+  Qed.
+
+  Lemma cfp_maps su :
+    contract_function_parts (maps_SourceUnit g su) = rmap (map (maps_ContractPart g)) (contract_function_parts su).
+  Proof.
+    unfold contract_function_parts. rewrite contract_nodes_maps.
+    rewrite (mapM_map_rmap _ (fun c => mapM (fun n => unwrap "node.contract_part().unwrap()" (node_contract_part n))
+                                             (extract_target_from_node Target_FunctionDefinition c))
+                           mn (map (maps_ContractPart g))).
+    - destruct (mapM _ (contract_nodes su)) as [ls|s]; cbn [rmap bind]; [|reflexivity].
+      rewrite concat_map. reflexivity.
+    - intros c. rewrite extract1_maps. apply mapM_unwrap_cp.
+  Qed.
+
+  Lemma cvd_maps su :
+    contract_variable_definitions (maps_SourceUnit g su)
+    = rmap (map (maps_VariableDefinition g)) (contract_variable_definitions su).
+  Proof.
+    unfold contract_variable_definitions. rewrite contract_nodes_maps, mapM_unwrap_sup.
+    destruct (mapM _ (contract_nodes su)) as [parts|s]; cbn [rmap bind]; [|reflexivity]. f_equal.
+    apply flat_map_map_map. intros p. destruct p as [c| | | | | | | | | | |]; try reflexivity.
+    destruct c as [l ty nm bases cps].
+    cbn [maps_SourceUnitPart maps_ContractDefinition ContractDefinition_parts].
+    apply flat_map_map_map. intros q. destruct q; reflexivity.
+  Qed.
+
+  Ltac same_bind := match goal with |- bind ?a ?F = bind ?b ?F => replace a with b; [reflexivity|symmetry] end.
+  Ltac dmatch := match goal with |- context [match maps_Expression g ?c with _ => _ end] => destruct c; try reflexivity end.
+  Ltac dif := match goal with |- context [if ?b then _ else _] => destruct b; try reflexivity end.
+
+  (* ================================================================== the 30 detectors *)
+  Theorem address_balance_blind su :
+    address_balance_optimization (maps_SourceUnit g su) = address_balance_optimization su.
+  Proof. unfold address_balance_optimization. rewrite root_maps, extract1_maps. apply each_expr_maps. pred. Qed.
+
+  Theorem address_zero_blind su :
+    address_zero_optimization (maps_SourceUnit g su) = address_zero_optimization su.
+  Proof.
+    unfold address_zero_optimization. rewrite root_maps, extractN_maps. apply each_expr_maps.
+    intros e; destruct e; try reflexivity; scbn; rewrite !check_for_address_zero_maps; reflexivity.
+  Qed.
+
+  Theorem assign_update_array_blind su :
+    assign_update_array_optimization (maps_SourceUnit g su) = assign_update_array_optimization su.
+  Proof.
+    unfold assign_update_array_optimization. rewrite root_maps, extract1_maps. apply each_expr_maps.
+    intros e; destruct e; try reflexivity. cbv beta. rewrite assign_update_match_maps. reflexivity.
+  Qed.
+
+  Theorem bool_equals_bool_blind su :
+    bool_equals_bool_optimization (maps_SourceUnit g su) = bool_equals_bool_optimization su.
+  Proof.
+    unfold bool_equals_bool_optimization. rewrite root_maps, extractN_maps. apply each_expr_maps.
+    intros e; destruct e; try reflexivity; scbn; rewrite !is_bool_literal_maps; reflexivity.
+  Qed.
+
+  Lemma length_accesses_maps cond : length_accesses (mE cond) = length_accesses cond.
+  Proof.
+    unfold length_accesses. rewrite NE_maps, extract1_maps. apply each_expr_maps.
+    intros e; destruct e; reflexivity.
+  Qed.
+
+  Theorem cache_array_length_blind su :
+    cache_array_length_optimization (maps_SourceUnit g su) = cache_array_length_optimization su.
+  Proof.
+    unfold cache_array_length_optimization. rewrite root_maps, extract1_maps. apply each_stmt_maps.
+    intros s; destruct s as [| | | | | | |l oi oc onx ob| | | | | | | |]; try reflexivity. scbn.
+    destruct oc as [c|]; [|reflexivity]. cbv beta iota. apply length_accesses_maps.
+  Qed.
+
+  Theorem constant_variable_blind su :
+    constant_variable_optimization (maps_SourceUnit g su) = constant_variable_optimization su.
+  Proof.
+    unfold constant_variable_optimization. rewrite sv_maps, root_maps, extractN_maps.
+    apply bind_ext. intros sv. rewrite remove_written_maps. reflexivity.
+  Qed.
+
+  Lemma add_constructor_assignments_maps sv m n :
+    add_constructor_assignments sv m (mn n) = add_constructor_assignments sv m n.
+  Proof.
+    unfold add_constructor_assignments. rewrite unwrap_expr_maps.
+    destruct (unwrap _ (node_expression n)) as [e|]; cbn [rmap bind]; [|reflexivity]. f_equal.
+    destruct e; try reflexivity. scbn. rewrite is_a_non_value_type_maps. dif. deep.
+  Qed.
+
+  Lemma gsvaic_maps su sv :
+    get_storage_variables_assigned_in_constructor (maps_SourceUnit g su) sv
+    = get_storage_variables_assigned_in_constructor su sv.
+  Proof.
+    unfold get_storage_variables_assigned_in_constructor. rewrite cfp_maps, bind_rmap. apply bind_ext. intros fns.
+    apply foldM_map_ext. intros m cp. destruct cp; try reflexivity.
+    rewrite NCP_maps. cbn [maps_ContractPart]. rewrite is_constructor_maps. dif.
+    rewrite extract1_maps. apply foldM_map_ext. intros m' n. apply add_constructor_assignments_maps.
+  Qed.
+
+  Theorem immutable_variables_blind su :
+    immutable_variables_optimization (maps_SourceUnit g su) = immutable_variables_optimization su.
+  Proof.
+    unfold immutable_variables_optimization. rewrite sv_maps. apply bind_ext. intros sv.
+    rewrite gsvaic_maps. apply bind_ext. intros pot. rewrite cfp_maps, bind_rmap. apply bind_ext. intros fns.
+    same_bind. apply foldM_map_ext. intros m cp. destruct cp; try reflexivity.
+    rewrite NCP_maps. cbn [maps_ContractPart]. rewrite is_constructor_maps. dif.
+    rewrite extractN_maps. apply remove_written_maps.
+  Qed.
+
+  Lemma extract_pre_maps n :
+    extract_pre_increment_pre_decrement (mn n) = extract_pre_increment_pre_decrement n.
+  Proof.
+    unfold extract_pre_increment_pre_decrement. rewrite extractN_maps. apply each_expr_maps. apply incdec_loc_maps.
+  Qed.
+  Lemma extract_incdec_maps n : extract_increment_decrement (mn n) = extract_increment_decrement n.
+  Proof.
+    unfold extract_increment_decrement. rewrite extractN_maps. apply each_expr_maps. apply incdec_loc_maps.
+  Qed.
+
+  Theorem increment_decrement_blind su :
+    increment_decrement_optimization (maps_SourceUnit g su) = increment_decrement_optimization su.
+  Proof.
+    unfold increment_decrement_optimization. rewrite root_maps, extract1_maps, extract_incdec_maps.
+    rewrite each_stmt_maps; [reflexivity|].
+    intros s; destruct s as [l u stmts| | | | | | | | | | | | | | |]; try reflexivity. scbn.
+    destruct u; [|reflexivity]. f_equal. apply mapM_map_ext. intros st. rewrite NS_maps. apply extract_pre_maps.
+  Qed.
+
+  Lemma memory_args_maps f :
+    get_function_definition_memory_args (maps_FunctionDefinition g f) = get_function_definition_memory_args f.
+  Proof.
+    destruct f as [l ty nm nl params attrs rnr rets body]. unfold get_function_definition_memory_args.
+    cbn [maps_FunctionDefinition FunctionDefinition_params].
+    apply fold_left_map_ext. intros m [l0 [p|]]; [|reflexivity]. destruct p as [pl pty st pn]. reflexivity.
+  Qed.
+
+  Lemma memory_to_calldata_fn_maps f :
+    memory_to_calldata_fn (maps_FunctionDefinition g f) = memory_to_calldata_fn f.
+  Proof.
+    unfold memory_to_calldata_fn. rewrite is_constructor_maps, FD_body_maps, memory_args_maps.
+    destruct (is_constructor f); [reflexivity|]. destruct (FunctionDefinition_body f) as [body|]; [|reflexivity].
+    cbn [option_map]. rewrite NS_maps, extract1_maps. same_bind.
+    apply foldM_map_ext. intros m n. rewrite unwrap_expr_maps.
+    destruct (unwrap _ (node_expression n)) as [e|]; cbn [rmap bind]; [|reflexivity].
+    rewrite assigned_param_maps. reflexivity.
+  Qed.
+
+  Theorem memory_to_calldata_blind su :
+    memory_to_calldata_optimization (maps_SourceUnit g su) = memory_to_calldata_optimization su.
+  Proof.
+    unfold memory_to_calldata_optimization. rewrite root_maps, extract1_maps. f_equal. apply mapM_map_ext.
+    intros n. destruct n as [s|e|su'|p|p]; try reflexivity; destruct p; try reflexivity;
+      cbn [maps_node maps_SourceUnitPart maps_ContractPart]; apply memory_to_calldata_fn_maps.
+  Qed.
+
+  Theorem multiple_require_blind su :
+    multiple_require_optimization (maps_SourceUnit g su) = multiple_require_optimization su.
+  Proof.
+    unfold multiple_require_optimization. rewrite root_maps, extract1_maps. apply each_expr_maps.
+    intros e; destruct e; try reflexivity. scbn. dmatch. scbn. dif.
+    apply flat_map_map_ext. intros a. rewrite is_and_maps. reflexivity.
+  Qed.
+
+  Theorem optimal_comparison_blind su :
+    optimal_comparison_optimization (maps_SourceUnit g su) = optimal_comparison_optimization su.
+  Proof.
+    unfold optimal_comparison_optimization. rewrite root_maps, extractN_maps. apply each_expr_maps.
+    intros e; destruct e; reflexivity.
+  Qed.
+
+  Lemma CD_loc_maps c : ContractDefinition_loc (maps_ContractDefinition g c) = ContractDefinition_loc c.
+  Proof. destruct c; reflexivity. Qed.
+  Lemma contract_variable_sizes_maps c :
+    contract_variable_sizes (maps_ContractDefinition g c) = contract_variable_sizes c.
+  Proof.
+    destruct c as [l ty nm bases parts]. unfold contract_variable_sizes.
+    cbn [maps_ContractDefinition ContractDefinition_parts].
+    apply flat_map_map_ext. intros p. destruct p; try reflexivity. cbn [maps_ContractPart].
+    rewrite VD_ty_maps, get_type_size_maps. reflexivity.
+  Qed.
+  Lemma pack_storage_node_maps n : pack_storage_node (mn n) = pack_storage_node n.
+  Proof.
+    destruct n as [s|e|su'|p|p]; try reflexivity. destruct p as [c| | | | | | | | | | |]; try reflexivity.
+    cbn [maps_node maps_SourceUnitPart pack_storage_node].
+    rewrite contract_variable_sizes_maps, CD_loc_maps. reflexivity.
+  Qed.
+
+  Theorem pack_storage_variables_blind su :
+    pack_storage_variables_optimization (maps_SourceUnit g su) = pack_storage_variables_optimization su.
+  Proof.
+    unfold pack_storage_variables_optimization. rewrite NSU_maps, extract1_maps.
+    rewrite (mapM_map_ext _ pack_storage_node mn); [reflexivity|apply pack_storage_node_maps].
+  Qed.
+
+  Lemma SD_loc_maps s : StructDefinition_loc (maps_StructDefinition g s) = StructDefinition_loc s.
+  Proof. destruct s; reflexivity. Qed.
+  Lemma struct_can_be_packed_maps s : struct_can_be_packed (maps_StructDefinition g s) = struct_can_be_packed s.
+  Proof.
+    unfold struct_can_be_packed, struct_variable_sizes. f_equal. destruct s as [l nm fields].
+    cbn [maps_StructDefinition StructDefinition_fields]. rewrite map_map. apply map_ext.
+    intros d. destruct d as [dl dty dst dnm]. scbn. cbn [VariableDeclaration_ty]. apply get_type_size_maps.
+  Qed.
+  Lemma pack_struct_node_maps n : pack_struct_node (mn n) = pack_struct_node n.
+  Proof.
+    destruct n as [s|e|su'|p|p]; try reflexivity; destruct p; try reflexivity;
+      cbn [maps_node maps_SourceUnitPart maps_ContractPart pack_struct_node];
+      rewrite struct_can_be_packed_maps, SD_loc_maps; reflexivity.
+  Qed.
+
+  Theorem pack_struct_variables_blind su :
+    pack_struct_variables_optimization (maps_SourceUnit g su) = pack_struct_variables_optimization su.
+  Proof.
+    unfold pack_struct_variables_optimization. rewrite NSU_maps, extract1_maps.
+    rewrite (mapM_map_ext _ pack_struct_node mn); [reflexivity|apply pack_struct_node_maps].
+  Qed.
+
+  Lemma attr_pe_maps a : attr_public_or_external (maps_FunctionAttribute g a) = attr_public_or_external a.
+  Proof. destruct a; reflexivity. Qed.
+  Lemma attr_payable_maps a : attr_payable (maps_FunctionAttribute g a) = attr_payable a.
+  Proof. destruct a; reflexivity. Qed.
+  Lemma is_public_or_external_maps f :
+    is_public_or_external (maps_FunctionDefinition g f) = is_public_or_external f.
+  Proof. unfold is_public_or_external. rewrite FD_attributes_maps. apply existsb_map_ext. apply attr_pe_maps. Qed.
+
+  Theorem payable_function_blind su :
+    payable_function_optimization (maps_SourceUnit g su) = payable_function_optimization su.
+  Proof.
+    unfold payable_function_optimization. rewrite cfp_maps, bind_rmap. apply bind_ext. intros fns. f_equal.
+    apply flat_map_map_ext. intros cp. destruct cp; try reflexivity. cbn [maps_ContractPart].
+    rewrite FD_body_maps, is_public_or_external_maps, FD_attributes_maps, FD_loc_maps.
+    rewrite (existsb_map_ext _ attr_payable (maps_FunctionAttribute g)) by apply attr_payable_maps.
+    destruct (FunctionDefinition_body _); reflexivity.
+  Qed.
+
+  Theorem private_constant_blind su :
+    private_constant_optimization (maps_SourceUnit g su) = private_constant_optimization su.
+  Proof.
+    unfold private_constant_optimization. rewrite cvd_maps, bind_rmap. apply bind_ext. intros vs. f_equal.
+    apply flat_map_map_ext. intros v. cbv zeta. rewrite VD_attrs_maps, VD_loc_maps. reflexivity.
+  Qed.
+
+  Lemma using_is_safemath_maps u : using_is_safemath (maps_Using g u) = using_is_safemath u.
+  Proof. destruct u; reflexivity. Qed.
+  Lemma check_if_using_safe_math_maps su :
+    check_if_using_safe_math (maps_SourceUnit g su) = check_if_using_safe_math su.
+  Proof.
+    unfold check_if_using_safe_math. rewrite root_maps, extract1_maps. apply existsb_map_ext.
+    intros n. destruct n as [s|e|su'|p|p]; try reflexivity; destruct p; try reflexivity;
+      cbn [maps_node maps_SourceUnitPart maps_ContractPart]; apply using_is_safemath_maps.
+  Qed.
+  Lemma safe_math_sites_maps su :
+    parse_contract_for_safe_math_functions (maps_SourceUnit g su) = parse_contract_for_safe_math_functions su.
+  Proof.
+    unfold parse_contract_for_safe_math_functions. rewrite root_maps, extract1_maps. apply each_expr_maps. pred.
+  Qed.
+  Lemma safe_math_maps su b : safe_math_optimization (maps_SourceUnit g su) b = safe_math_optimization su b.
+  Proof.
+    unfold safe_math_optimization.
+    rewrite version_maps, check_if_using_safe_math_maps, safe_math_sites_maps. reflexivity.
+  Qed.
+
+  Theorem safe_math_pre_080_blind su :
+    safe_math_pre_080_optimization (maps_SourceUnit g su) = safe_math_pre_080_optimization su.
+  Proof. apply safe_math_maps. Qed.
+  Theorem safe_math_post_080_blind su :
+    safe_math_post_080_optimization (maps_SourceUnit g su) = safe_math_post_080_optimization su.
+  Proof. apply safe_math_maps. Qed.
+
+  Theorem shift_math_blind su : shift_math_optimization (maps_SourceUnit g su) = shift_math_optimization su.
+  Proof.
+    unfold shift_math_optimization. rewrite root_maps, extractN_maps. apply each_expr_maps.
+    intros e; destruct e; try reflexivity; scbn; rewrite !pow2_literal_maps; reflexivity.
+  Qed.
+
+  (* the parts of the last argument of require(..): the same parts, rewritten *)
+  Lemma require_last_string_maps e :
+    require_last_string (mE e) = option_map (map (maps_StringLiteral g)) (require_last_string e).
+  Proof.
+    destruct e; try reflexivity. scbn. unfold require_last_string. dmatch. scbn. dif.
+    rewrite last_map_some_map. destruct (last (map Some _) None) as [x|]; [|reflexivity].
+    cbn [option_map]. destruct x; reflexivity.
+  Qed.
+
+  (* the ONLY place where the text of a string literal is inspected: its byte length *)
+  Theorem short_revert_string_blind su :
+    short_revert_string_optimization (maps_SourceUnit g su) = short_revert_string_optimization su.
+  Proof.
+    unfold short_revert_string_optimization. rewrite version_maps. apply bind_ext. intros [v|]; [|reflexivity].
+    destruct (version_ge v v084); [reflexivity|]. rewrite root_maps, extract1_maps. apply each_expr_maps.
+    intros e. rewrite require_last_string_maps. destruct (require_last_string e) as [[|lit parts]|]; try reflexivity.
+    cbn [option_map map]. destruct lit as [l u s].
+    cbn [maps_StringLiteral StringLiteral_string StringLiteral_loc]. unfold strlen. rewrite Hlen. reflexivity.
+  Qed.
+
+  Theorem solidity_keccak256_blind su :
+    solidity_keccak256_optimization (maps_SourceUnit g su) = solidity_keccak256_optimization su.
+  Proof. unfold solidity_keccak256_optimization. rewrite root_maps, extract1_maps. apply each_expr_maps. pred. Qed.
+
+  Theorem solidity_math_blind su :
+    solidity_math_optimization (maps_SourceUnit g su) = solidity_math_optimization su.
+  Proof.
+    unfold solidity_math_optimization. rewrite root_maps, extractN_maps. apply each_expr_maps.
+    intros e; destruct e; reflexivity.
+  Qed.
+
+  Theorem sstore_blind su : sstore_optimization (maps_SourceUnit g su) = sstore_optimization su.
+  Proof.
+    unfold sstore_optimization. rewrite sv_maps. apply bind_ext. intros sv.
+    rewrite root_maps, extract1_maps. apply each_expr_maps. pred.
+  Qed.
+
+  Theorem string_error_blind su : string_error_optimization (maps_SourceUnit g su) = string_error_optimization su.
+  Proof.
+    unfold string_error_optimization. rewrite version_maps. apply bind_ext. intros [v|]; [|reflexivity].
+    destruct (version_ge v v084); [|reflexivity]. rewrite root_maps, extract1_maps. f_equal. apply mapM_map_ext.
+    intros n. rewrite unwrap_expr_maps. destruct (unwrap _ (node_expression n)) as [e|]; cbn [rmap bind]; [|reflexivity].
+    rewrite require_last_string_maps. destruct (require_last_string e) as [[|lit parts]|]; try reflexivity.
+    destruct lit; reflexivity.
+  Qed.
+
+  Theorem divide_before_multiply_blind su :
+    divide_before_multiply_vulnerability (maps_SourceUnit g su) = divide_before_multiply_vulnerability su.
+  Proof.
+    unfold divide_before_multiply_vulnerability. rewrite root_maps, extractN_maps. apply each_expr_maps.
+    intros e; destruct e; try reflexivity; scbn;
+      rewrite ?mul_chain_has_div_maps, ?arith_chain_has_mul_maps; reflexivity.
+  Qed.
+
+  Theorem floating_pragma_blind su :
+    floating_pragma_vulnerability (maps_SourceUnit g su) = floating_pragma_vulnerability su.
+  Proof.
+    unfold floating_pragma_vulnerability. rewrite root_maps, extract1_maps. apply each_sup_maps.
+    intros p; destruct p; reflexivity.
+  Qed.
+
+  Lemma selfdestruct_calls_maps body : selfdestruct_calls (mS body) = selfdestruct_calls body.
+  Proof.
+    unfold selfdestruct_calls. rewrite NS_maps, extract1_maps. apply each_expr_maps.
+    intros e; destruct e; try reflexivity. scbn. rewrite is_selfdestruct_maps. reflexivity.
+  Qed.
+  Lemma Base_name_maps b : Base_name (maps_Base g b) = Base_name b.
+  Proof. destruct b; reflexivity. Qed.
+  Lemma contains_protection_modifiers_maps f :
+    contains_protection_modifiers (maps_FunctionDefinition g f) = contains_protection_modifiers f.
+  Proof.
+    unfold contains_protection_modifiers. rewrite FD_attributes_maps. apply existsb_map_ext.
+    intros a. destruct a; try reflexivity. scbn. rewrite Base_name_maps. reflexivity.
+  Qed.
+  Lemma contains_msg_sender_conditions_maps f :
+    contains_msg_sender_conditions (maps_FunctionDefinition g f) = contains_msg_sender_conditions f.
+  Proof.
+    unfold contains_msg_sender_conditions. rewrite FD_body_maps.
+    destruct (FunctionDefinition_body f) as [body|]; [|reflexivity]. cbn [option_map].
+    rewrite NS_maps, extract1_maps, mapM_unwrap_expr, bind_rmap. apply bind_ext. intros es. f_equal.
+    apply existsb_map_ext. apply sender_check_call_maps.
+  Qed.
+  Lemma unprotected_selfdestruct_fn_maps f :
+    unprotected_selfdestruct_fn (maps_FunctionDefinition g f) = unprotected_selfdestruct_fn f.
+  Proof.
+    unfold unprotected_selfdestruct_fn.
+    rewrite FD_body_maps, is_constructor_maps, is_public_or_external_maps, contains_protection_modifiers_maps,
+      contains_msg_sender_conditions_maps.
+    destruct (FunctionDefinition_body f) as [body|]; [|reflexivity]. cbn [option_map].
+    rewrite selfdestruct_calls_maps. reflexivity.
+  Qed.
+
+  Theorem unprotected_selfdestruct_blind su :
+    unprotected_selfdestruct_vulnerability (maps_SourceUnit g su) = unprotected_selfdestruct_vulnerability su.
+  Proof.
+    unfold unprotected_selfdestruct_vulnerability. rewrite cfp_maps, bind_rmap. apply bind_ext. intros fns. f_equal.
+    apply mapM_map_ext. intros cp. destruct cp; try reflexivity. cbn [maps_ContractPart].
+    apply unprotected_selfdestruct_fn_maps.
+  Qed.
+
+  Theorem unsafe_erc20_operation_blind su :
+    unsafe_erc20_operation_vulnerability (maps_SourceUnit g su) = unsafe_erc20_operation_vulnerability su.
+  Proof.
+    unfold unsafe_erc20_operation_vulnerability. rewrite root_maps, extract1_maps. apply each_expr_maps.
+    intros e; destruct e; reflexivity.
+  Qed.
+
+  Lemma constructor_order_scan_maps ns :
+    forall seen, constructor_order_scan seen (map mn ns) = constructor_order_scan seen ns.
+  Proof.
+    induction ns as [|n ns IH]; intros seen; [reflexivity|]. cbn [map].
+    destruct n as [s|e|su'|p|p]; cbn [maps_node constructor_order_scan]; try apply IH.
+    destruct p; cbn [maps_ContractPart constructor_order_scan]; try apply IH.
+    rewrite FD_ty_maps, FD_loc_maps. destruct (FunctionDefinition_ty _); rewrite ?IH; reflexivity.
+  Qed.
+
+  Theorem constructor_order_blind su : constructor_order_qa (maps_SourceUnit g su) = constructor_order_qa su.
+  Proof.
+    unfold constructor_order_qa. f_equal. rewrite contract_nodes_maps. apply flat_map_map_ext.
+    intros c. rewrite extract1_maps. apply constructor_order_scan_maps.
+  Qed.
+
+  Theorem private_func_leading_underscore_blind su :
+    private_func_leading_underscore (maps_SourceUnit g su) = private_func_leading_underscore su.
+  Proof.
+    unfold private_func_leading_underscore. f_equal. rewrite root_maps, extract1_maps. apply flat_map_map_ext.
+    intros n. destruct n as [s|e|su'|p|p]; try reflexivity. destruct p; try reflexivity.
+    cbn [maps_node maps_ContractPart]. rewrite FD_ty_maps, FD_name_maps, FD_attributes_maps.
+    destruct (FunctionDefinition_ty _); try reflexivity.
+    apply flat_map_map_ext. intros a. destruct a; reflexivity.
+  Qed.
+
+  Theorem private_vars_leading_underscore_blind su :
+    private_vars_leading_underscore (maps_SourceUnit g su) = private_vars_leading_underscore su.
+  Proof.
+    unfold private_vars_leading_underscore. rewrite cvd_maps, bind_rmap. apply bind_ext. intros vs. f_equal.
+    apply flat_map_map_ext. intros v. cbv zeta. rewrite VD_attrs_maps, VD_name_maps, VD_loc_maps. reflexivity.
+  Qed.
+End Blind.
+
+(* ------------------------------------------------------------------------------------------ *)
+Definition strlit_blind (d : SourceUnit -> res (list Loc)) : Prop :=
+  forall (g : string -> string), (forall s, String.length (g s) = String.length s) ->
+  forall su, d (maps_SourceUnit g su) = d su.
+
+(* ... and without any condition on the rewriting *)
+Definition strlit_blind_any (d : SourceUnit -> res (list Loc)) : Prop :=
+  forall (g : string -> string) su, d (maps_SourceUnit g su) = d su.
+
+Lemma strlit_blind_any_blind d : strlit_blind_any d -> strlit_blind d.
+Proof. intros H g _ su. apply H. Qed.
+
+(* all detectors except short_revert_string (index 18) *)
+Definition detectors_not_measuring : list (SourceUnit -> res (list Loc)) :=
+  firstn 18 all_detectors ++ skipn 19 all_detectors.
+
+Theorem strlit_blind_any_29 : Forall strlit_blind_any detectors_not_measuring.
+Proof.
+  unfold detectors_not_measuring, all_detectors. cbn [firstn skipn app].
+  repeat match goal with |- Forall _ (_ :: _) => constructor | |- Forall _ [] => constructor end; intros g su.
+  - apply address_balance_blind.
+  - apply address_zero_blind.
+  - apply assign_update_array_blind.
+  - apply bool_equals_bool_blind.
+  - apply cache_array_length_blind.
+  - apply constant_variable_blind.
+  - apply immutable_variables_blind.
+  - apply increment_decrement_blind.
+  - apply memory_to_calldata_blind.
+  - apply multiple_require_blind.
+  - apply optimal_comparison_blind.
+  - apply pack_storage_variables_blind.
+  - apply pack_struct_variables_blind.
+  - apply payable_function_blind.
+  - apply private_constant_blind.
+  - apply safe_math_pre_080_blind.
+  - apply safe_math_post_080_blind.
+  - apply shift_math_blind.
+  - apply solidity_keccak256_blind.
+  - apply solidity_math_blind.
+  - apply sstore_blind.
+  - apply string_error_blind.
+  - apply divide_before_multiply_blind.
+  - apply floating_pragma_blind.
+  - apply unprotected_selfdestruct_blind.
+  - apply unsafe_erc20_operation_blind.
+  - apply constructor_order_blind.
+  - apply private_func_leading_underscore_blind.
+  - apply private_vars_leading_underscore_blind.
+Qed.
+
+Theorem strlit_blind_all : Forall strlit_blind all_detectors.
+Proof.
+  pose proof strlit_blind_any_29 as H. unfold detectors_not_measuring, all_detectors in H. cbn [firstn skipn app] in H.
+  unfold all_detectors.
+  repeat match goal with
+         | H : Forall _ (_ :: _) |- _ =>
+             let Hd := fresh "Hd" in let Ht := fresh "Ht" in
+             inversion H as [|? ? Hd Ht]; subst; clear H; rename Ht into H
+         end.
+  repeat match goal with |- Forall _ (_ :: _) => constructor | |- Forall _ [] => constructor end;
+    try (apply strlit_blind_any_blind; assumption).
+  intros g Hg su. apply short_revert_string_blind. exact Hg.
+Qed.
+
+(* the length hypothesis is needed: erasing the text of a long revert string changes the result
+   of short_revert_string *)
+Definition long_revert_tree : SourceUnit :=
+  Mk_SourceUnit
+    [ SourceUnitPart_PragmaDirective (Loc_File 0 0 22) (Mk_Identifier (Loc_File 0 7 15) "solidity")
+                                     (Mk_StringLiteral (Loc_File 0 16 21) false "0.8.0");
+      SourceUnitPart_VariableDefinition
+        (Mk_VariableDefinition (Loc_File 0 23 80) (Expression_Type (Loc_File 0 23 27) Ty_Bool) []
+           (Mk_Identifier (Loc_File 0 28 29) "b")
+           (Some (Expression_FunctionCall (Loc_File 0 32 80) (Expression_Variable (Mk_Identifier (Loc_File 0 32 39) "require"))
+                    [Expression_BoolLiteral (Loc_File 0 40 44) true;
+                     Expression_StringLiteral
+                       [Mk_StringLiteral (Loc_File 0 46 79) false "0123456789abcdef0123456789abcdef"]]))) ].
+
+Example short_revert_measures_length :
+  short_revert_string_optimization long_revert_tree = Ok [Loc_File 0 46 79] /\
+  short_revert_string_optimization (maps_SourceUnit (fun _ => EmptyString) long_revert_tree) = Ok [].
+Proof. split; vm_compute; reflexivity. Qed.
